@@ -33,28 +33,36 @@ theorem rf_round (F : Type) [FloatOps F] (x : F) : RFloat.round x = FloatOps.rou
 theorem rf_lt (F : Type) [FloatOps F] (x y : F) : RFloat.lt x y = FloatOps.lt x y := rfl
 theorem rf_toInt (F : Type) [FloatOps F] (x : F) : RFloat.toInt x = FloatOps.toInt x := rfl
 
-/-- normal form of an `Option` program: guards folded, binds right-nested, maps pushed to the leaves -/
-macro "opt_norm" : tactic => `(tactic| simp only [rt_i32_to_string_eq, rt_slice_eq, rt_parse_i32_eq, Option.bind_eq_bind,
-    Option.pure_def, i32c_bind, i32q_bind, i32c_eq, i32q_eq, guardO_bind, guardO_map, guardO_guardO, Option.bind_assoc,
-    Option.bind_some, Option.map_bind, Option.map_some, Function.comp_def, Bool.and_eq_true, Bool.or_eq_true,
-    Bool.not_eq_true', decide_eq_true_eq, decide_eq_false_iff_not, rf_ofInt, rf_add, rf_sub, rf_mul, rf_div, rf_floor,
-    rf_round, rf_lt, rf_toInt, if_true, if_false, ite_true, ite_false, *] at *)
+theorem slice_bind {β} (s : List Char) (a b : Nat) (f : List Char → Option β) :
+    (slice s a b).bind f = guardO (a ≤ b ∧ b ≤ s.length) (f ((s.drop a).take (b - a))) := by
+  unfold slice guardO; split <;> simp
+theorem slice_eq (s : List Char) (a b : Nat) :
+    slice s a b = guardO (a ≤ b ∧ b ≤ s.length) (some ((s.drop a).take (b - a))) := rfl
 
-syntax "opt_eq" : tactic
-macro_rules | `(tactic| opt_eq) => `(tactic| first
-  | rfl
-  | omega
-  | (apply guardO_congr (by arith); intro _; opt_eq)
-  | (apply bind_congr'; intro _; opt_eq)
-  | (apply some_congr'; arith_congr)
-  | (split <;> (try opt_norm) <;> opt_eq))
+/-- normal form of an `Option` program: guards folded (checked arithmetic, slices), binds right-nested and pushed through
+    conditionals, maps pushed to the leaves -/
+macro "opt_norm" : tactic => `(tactic| simp only [rt_i32_to_string_eq, rt_slice_eq, rt_parse_i32_eq, Option.bind_eq_bind,
+    Option.pure_def, i32c_bind, i32q_bind, i32c_eq, i32q_eq, slice_bind, slice_eq, guardO_bind, guardO_map, guardO_guardO,
+    guardO_none, guardO_eq_some_iff, guardO_eq_none_iff, Option.bind_assoc, Option.bind_some, Option.bind_none, Option.map_bind, Option.map_some, Option.map_none,
+    Function.comp_def, ite_bind', ite_map', Bool.and_eq_true, Bool.or_eq_true, Bool.or_eq_false_iff, Bool.and_eq_false_iff,
+    Bool.not_eq_true', Bool.not_eq_false', Bool.not_eq_true, Bool.not_eq_false, Bool.not_not, decide_eq_true_eq, decide_eq_false_iff_not,
+    rf_ofInt, rf_add, rf_sub, rf_mul, rf_div, rf_floor,
+    rf_round, rf_lt, rf_toInt, if_true, if_false, ite_true, ite_false, Bool.false_eq_true, Bool.true_eq_false, ↓reduceIte, *] at *)
+
+/-- split every conditional of both sides, then every bind of an opaque option (as a `match`), normalising on the way;
+    compare the leaves -/
+macro "opt_eq" : tactic => `(tactic|
+  ((try opt_norm)
+   repeat' (split <;> (try opt_norm))
+   all_goals (try simp only [bind_as_match] at *)
+   repeat' (split <;> (try opt_norm))
+   all_goals opt_leaf))
 
 /-- `convert_date_crate` as it is in the source = the model's integer part followed by `serialOf` -/
 theorem gen_convert_date_crate (F : Type) [FloatOps F] (y m d h mi s : Int) (w : Bool) :
     convert_date_crate F y m d h mi s w = (convertDateCrate y m d h mi s w).map (fun p => serialOf F p.1 p.2) := by
   unfold convert_date_crate convertDateCrate adjustMonthYear centuryDecade excelDate excelSecs serialOf
-  opt_norm
-  opt_eq
+  cases w <;> opt_eq
 
 /-- chrono's calendar is represented by the reference calendar (trusted, as in the model) -/
 def refChrono : Chrono := ⟨daysFromCivil⟩
@@ -101,7 +109,9 @@ theorem gen_excel_to_date_time_object_checked (F : Type) [FloatOps F] (ts : F) (
   unfold excel_to_date_time_object_checked excelToEpochSecondsChecked baseFor base1970 base18991231 base18991230
   simp only [rt_f64_as_i64_eq, rt_try_units_eq, rt_checked_add_signed_eq, midnight_ref, rf_ofInt, rf_add, rf_sub,
     rf_mul, rf_div, rf_floor, rf_round, rf_lt, rf_toInt, Option.bind_eq_bind, bind, tryUnits_bind, tryUnits_eq,
-    checkedAddSigned_bind, checkedAddSigned_eq, guardO_bind, guardO_guardO, Option.bind_some]
+    checkedAddSigned_bind, checkedAddSigned_eq, guardO_bind, guardO_guardO, guardO_none, Option.bind_some, Option.bind_none,
+    b1, b2, b3, Int.zero_mul]
+  -- the two thresholds: every combination of the two comparisons (an abstract float interface need not order them)
   rcases Bool.eq_false_or_eq_true (FloatOps.lt ts (FloatOps.ofInt 1 : F)) with h1 | h1 <;>
   rcases Bool.eq_false_or_eq_true (FloatOps.lt ts (FloatOps.ofInt 60 : F)) with h60 | h60 <;>
     simp only [h1, h60, b1, b2, b3, Bool.not_true, Bool.not_false, Bool.false_eq_true, Bool.true_eq_false, eq_self, if_true,
